@@ -108,6 +108,73 @@ def has_ctl(s):
     return '\r' in s or '\n' in s or '\0' in s
 
 
+# ----------------------------------------------------------------------------------------
+# the CONTAINER in which the `headers` constructor argument arrives (class: what is handed to a constructor is not
+# always a list of pairs).  Sequence-like: the loop sees (name, value) pairs.  dict-like: asked for .items().
+# Mappings that are not a dict - a HeaderDict filled through its constructor or update() (neither validates), the
+# .headers of another response or of an upload, a read-only mapping proxy: holding a value is no proof that the value
+# went through a guarded setter, so nothing of it may reach the header list unvalidated.
+SEQ_SHAPES = ['list', 'tuple', 'gen']
+DICT_SHAPES = ['dict', 'odict']
+MAP_SHAPES = ['hd', 'hdu', 'resp', 'upload', 'proxy']
+ALL_SHAPES = SEQ_SHAPES + DICT_SHAPES + MAP_SHAPES
+
+
+def op_shape(op):
+    if op[0] == 'init':
+        return op[4] if len(op) > 4 else 'list'
+    if op[0] == 'errh':
+        return op[3]
+    return None
+
+
+def mk_container(shape, pairs):
+    """the object handed over as `headers=`: `pairs` = [[name, value description], ...]"""
+    import collections
+    import types
+    from ombott.common_helpers import HeaderDict
+    items = [(k, mk(v)) for k, v in pairs]
+    if shape == 'list':
+        return items
+    if shape == 'tuple':
+        return tuple(items)
+    if shape == 'gen':
+        return (p for p in items)
+    if shape == 'dict':
+        return dict(items)
+    if shape == 'odict':
+        return collections.OrderedDict(items)
+    if shape == 'hd':               # HeaderDict(mapping): stored as given
+        return HeaderDict(dict(items))
+    if shape == 'hdu':              # HeaderDict().update(mapping): stored as given
+        h = HeaderDict()
+        h.update(dict(items))
+        return h
+    if shape == 'resp':             # the live .headers of another response object
+        from ombott.response import HTTPResponse
+        other = HTTPResponse()
+        other.headers.update(dict(items))
+        return other.headers
+    if shape == 'upload':           # the .headers of an upload
+        from ombott.request_pkg.helpers import FileUpload
+        return FileUpload(io.BytesIO(b''), 'f', 'f.txt', dict(items)).headers
+    if shape == 'proxy':
+        return types.MappingProxyType(dict(items))
+    raise ValueError(shape)
+
+
+def gen_shaped(rng):
+    """-> (pairs, shape) for a constructor's `headers` argument"""
+    k = rng.randrange(10)
+    if k < 4:
+        return gen_pairs(rng), 'list'
+    shape = rng.choice(ALL_SHAPES)
+    pairs = gen_pairs(rng)
+    if shape in MAP_SHAPES and rng.random() < .35:      # keys of two characters are taken apart by the unpacking loop
+        pairs = [[rng.choice(['TE', 'Xa', 'x1', 'X-A']), gen_val(rng)] for _ in range(rng.randint(1, 3))]
+    return pairs, shape
+
+
 def gen_pairs(rng, maxn=3):
     return [[rng.choice(NAMES), gen_val(rng)] for _ in range(rng.randint(0, maxn))]
 
@@ -153,7 +220,8 @@ def gen_op(rng):
     if k < 84:
         return ['st', gen_status(rng, none_ok=False)]
     if k < 90:
-        return ['init', gen_status(rng), gen_pairs(rng), gen_pairs(rng, 2)]
+        pairs, shape = gen_shaped(rng)
+        return ['init', gen_status(rng), pairs, gen_pairs(rng, 2), shape]
     if k < 96:
         return ['err', gen_status(rng), gen_pairs(rng)]
     return ['ck', rng.choice(['a', 'sid', 'B']), rng.choice(['v', 'a b', 'caf\xe9', 'x;y', '\u20ac', ''])]
@@ -194,6 +262,8 @@ def enc_op(op):
         return 'clr:' + core.hsl(op[1])
     if t == 'st':
         return f'st:{op[1]}'
+    if t == 'init' and op_shape(op) in MAP_SHAPES:      # the model is told the KEYS only: the values are never its business
+        return f'initmap:{core.opt(op[1])}:{core.hsl([k for k, _ in op[2]])}:{enc_pairs(op[3])}'
     if t == 'init':
         return f'init:{core.opt(op[1])}:{enc_pairs(op[2])}:{enc_pairs(op[3])}'
     if t == 'err':
@@ -227,7 +297,12 @@ def apply_op(resp, op, raise_last=False):
         elif t == 'st':
             resp.status = op[1]
         elif t == 'init':
-            resp.__init__('', op[1], [(k, mk(v)) for k, v in op[2]], **{k: mk(v) for k, v in _dedup(op[3])})
+            resp.__init__('', op[1], mk_container(op_shape(op), op[2]), **{k: mk(v) for k, v in _dedup(op[3])})
+        elif t == 'errh':       # HTTPError(status, body, headers=<container>)
+            e = HTTPError(op[1], '', headers=mk_container(op[3], op[2]))
+            if raise_last:
+                return e
+            e.apply(resp)
         elif t == 'err':
             e = HTTPError(op[1], '', **{k: mk(v) for k, v in _dedup(op[2])})
             if raise_last:
@@ -253,7 +328,11 @@ def norm_ops(ops):
     out = []
     for op in ops:
         if op[0] == 'init':
-            out.append(['init', op[1], op[2], [list(p) for p in _dedup(op[3])]])
+            sh = op_shape(op)
+            hdrs = [list(p) for p in _dedup(op[2])] if sh in DICT_SHAPES + MAP_SHAPES else op[2]
+            out.append(['init', op[1], hdrs, [list(p) for p in _dedup(op[3])], sh])
+        elif op[0] == 'errh':
+            out.append(['errh', op[1], [list(p) for p in _dedup(op[2])] if op[3] in DICT_SHAPES + MAP_SHAPES else op[2], op[3]])
         elif op[0] == 'err':
             out.append(['err', op[1], [list(p) for p in _dedup(op[2])]])
         else:
@@ -359,7 +438,9 @@ class C14(Check):
                         'attributes) are outside the statement')
     anchors = ['ombott/common_helpers.py', 'ombott/response.py']
     rule = ('operation sequences (1-8 ops) over item assignment / append / setdefault / the three header attributes / '
-            'del / clear / status / __init__(headers, **more) / HTTPError(**options) / set_cookie, values from ASCII, '
+            'del / clear / status / __init__(headers, **more) with `headers` arriving as list / tuple / generator / dict / OrderedDict / '
+            'HeaderDict filled by its constructor or update() / another response\'s or an upload\'s .headers / mapping proxy '
+            '/ HTTPError(**options) / set_cookie, values from ASCII, '
             'Latin-1, BMP, astral text, CR LF NUL and other control characters inserted at every position, ints, floats, '
             'bools, None, bytes, objects; header names in varied case; statuses incl. 204/304 and invalid ones; each '
             'sequence run on a fresh response object and (half of them) inside a handler of a real Ombott() called '
@@ -489,12 +570,16 @@ class C14(Check):
         if t in ('set', 'app', 'sdf', 'prop'):
             vals = [op[2]]
         elif t == 'init':
-            vals = [v for _, v in op[2]] + [v for _, v in op[3]]
+            # a mapping that is not a dict: what the constructor makes of it is its own business (HEAD: it raises), the
+            # clause that binds is the emitted list (_check_emitted: no CR/LF/NUL, native strings) - checked after the step
+            vals = ([] if op_shape(op) in MAP_SHAPES else [v for _, v in op[2]]) + [v for _, v in op[3]]
+        elif t == 'errh':
+            vals = [] if op[3] in MAP_SHAPES else [v for _, v in op[2]]
         elif t == 'err':
             vals = [v for _, v in op[2]]
         if t == 'prop' and op[1] == 'ex' and op[2][0] != 's':
             return bad     # the writer turns it into a date or fails on its own
-        st_bad = t in ('init', 'err') and op[1] in BAD_STATUSES and op[1] != 0
+        st_bad = t in ('init', 'err', 'errh') and op[1] in BAD_STATUSES and op[1] != 0
         for v in vals:
             txt = text_of(v)
             if txt is None:
@@ -535,6 +620,22 @@ class C14(Check):
                            ['init', 200, [], [['X-A', v]]], ['err', 404, [['X-A', v]]]):
                     cases.append(([['set', 'X-B', ['s', 'ok']], ['app', 'X-A', ['s', 'first']], op], 'unit', 3))
                     cases.append(([['app', 'X-A', ['s', 'first']], op], 'wsgi', 3))
+        # directed: the constructors handed every kind of container (list, tuple, generator, dict, OrderedDict, HeaderDict
+        # filled by its constructor / by update(), another response's .headers, an upload's .headers, a mapping proxy)
+        # holding a value with CR / LF / NUL: BaseResponse.__init__ and HTTPError(headers=...), direct and raised in a handler
+        for ctl in ('\r', '\n', '\0', '\r\n'):
+            for txt in (ctl + 'ab', 'a' + ctl + 'Set-Cookie: sid=x', 'ab' + ctl):
+                v = ['s', txt]
+                for shape in ALL_SHAPES:
+                    for name in ('X-Trace', 'TE'):
+                        for op in (['init', 200, [[name, v]], [], shape], ['init', None, [['X-B', ['s', 'ok']], [name, v]], [], shape],
+                                   ['errh', 404, [[name, v]], shape]):
+                            cases.append(([['app', 'X-A', ['s', 'first']], op], 'unit', 3))
+                            cases.append(([op], 'wsgi', 3))
+        for shape in ALL_SHAPES:            # and values of a refused type in every container
+            for v in (['y', b'x'.hex()], ['o', 'object'], ['o', 'list']):
+                cases.append(([['init', 200, [['X-Trace', v]], [], shape]], 'unit', 3))
+                cases.append(([['errh', 500, [['X-Trace', v]], shape]], 'wsgi', 3))
         # directed: every entity header in three spellings on 204/304, all entry points
         for code, names in ((204, ENTITY_204), (304, ENTITY_304)):
             for nm in names:
